@@ -1,19 +1,36 @@
 """
 C04 — quoting or list-indenting any document wraps its parse unchanged.
 
-Exploration (metamorphic, on the implementation alone): AST of Document(text) against AST of
-Document(embed(text)) with line numbers set aside, for block-quote markers '> ' and '>' and list
-markers + - * N. N) with 1-4 spaces of padding; the set of link definitions must be unchanged.
+Theorems (lean/Mistletoe/Props/C04.lean, lemmas in Proofs/Wrap.lean) over the block-parser model, for every
+token-type list in which only types that cannot start on the marked line precede Quote / List (proved for the
+HTML and the Markdown renderer's lists), every buffer, start line, state and gas:
+  * `C04_quote_wraps_eq`: tokenize_block on lines each behind "> " or ">" (tab-free; the bare marker only before a
+    line that does not begin with a space) equals one Quote around tokenize_block on the unmarked lines run with
+    Paragraph.parse_setext off - errors included; definitions (`st.defs`) unchanged; `C04_quote_phase*` for
+    Document-level `blockPhase`; `C04_quote_wraps_same`: the content is exactly B when the parse does not depend
+    on the setext switch (the recorded finding `setext-in-quote` is exactly the failure of that hypothesis, and is
+    exhibited on the model by a kernel-evaluated example);
+  * `C04_item_wraps_eq` / `C04_item_phase_partial`: lines indented as one list item (marker - + * or 1-9 digits
+    with . or ), padding 1-4, first line starting with a non-space character, other lines indented by the marker
+    width or exactly "\n", not ending in a blank line, marked first line not a thematic break) parse to one
+    single-item List whose item content is the parse of the original lines, same definitions.
+Units: `scan.*` (every block scanner against the compiled patterns of the working tree) and `block.buffer`
+(real tokenize_block against the model) on the original AND the embedded texts of this run's cases.
+Exploration (metamorphic, on the implementation): AST of Document(text) against AST of Document(embed(text)) with
+line numbers set aside, for both quote markers and list markers + - * N. N) with 1-4 spaces of padding; the set of
+link definitions must be unchanged.
 """
 import re
 
+import block_units
 import common
 import export
 import gen_docs
 import impl
+import scan_units
 
 ID = 'C04'
-LEVEL = 'exploration'
+EXTRA_MODULES = ['Mistletoe.Proofs.Wrap']
 RULE = ('texts without tabs that do not end in a blank line (spec examples, mutations, splices, random documents, random '
         'strings); quote markers "> " and ">" (the latter only when no line starts with a space); list markers +, -, *, N., '
         'N) with padding 1-4, on texts that start with a non-space character and whose blank lines are empty, excluding '
@@ -22,8 +39,14 @@ RULE = ('texts without tabs that do not end in a blank line (spec examples, muta
 TRUSTED = ['the exporter (harness/export.py) as canonical AST observation']
 ASSUMPTIONS = ['list half: whitespace-only lines of the text are empty (a line with fewer columns than the marker width '
                'loses them inside an item, as the specification says)']
-PARTIAL = ['interim level: metamorphic exploration. The Lean wrap lemmas over the block-parser model (C04_quote_partial, '
-           'C04_list) are the planned upgrade']
+PARTIAL = ['the theorems are about the block phase (parse buffer at every depth, looseness, definitions); that the token '
+           'constructors and the inline phase map equal buffers to equal trees is by construction of make_tokens (a function '
+           'of the buffer and the definitions) and is exercised by the exploration on the implementation',
+           'quote half: "content is exactly B" carries the hypothesis that the parse of the text does not depend on '
+           'Paragraph.parse_setext (false exactly for the recorded finding setext-in-quote)',
+           'list half (_partial): first character after the indentation of a continuation line is not whitespace in the '
+           'sense of str.isspace (excludes the recorded finding unicode-whitespace-edge); blank lines are exactly "\\n"; '
+           'marker indentation 0']
 
 THEMATIC = re.compile(r'^ {0,3}(?:([-_*])[ \t]*)(?:\1[ \t]*){2,}$')
 SETEXT_UL = re.compile(r'^ {0,3}(=+|-+) *$')
@@ -173,8 +196,20 @@ def _cases(ctx):
     return cases
 
 
+def embed(c):
+    return embed_quote(c['text'], c['marker']) if c['kind'] == 'quote' else embed_list(c['text'], c['marker'])
+
+
 def units(ctx):
-    pass
+    scan_units.run(ctx)
+    cases = _cases(ctx)
+    rng = ctx.rng('units')
+    rng.shuffle(cases)
+    texts = []
+    for c in cases[:ctx.budget(1200, 12000)]:
+        texts.append(c['text'])
+        texts.append(embed(c))
+    block_units.run(ctx, texts, sets=block_units.TOKEN_SETS[:2])
 
 
 def explore(ctx, seeds):
